@@ -291,6 +291,18 @@ def _gen_invariance(seed, cfg):
                             '=SUMIF(%s,E%d,C1:C%d)' % (rng_e, rr_ + 1, last_), '=AVERAGEIFS(C1:C%d,%s,E%d)' % (last_, rng_e, rr_ + 1),
                             '=COUNTIFS(%s,">"&E%d)' % (rng_e, rr_ + 1), '=COUNTIFS(%s,"<="&E%d)' % (rng_e, rr_ + 1)])
             cells_[a1(0, n + j_)] = f_
+    # criteria built from TODAY() (own stream): they legitimately move with the date, so they are exempt from the
+    # time-invariance clause - but at one frozen instant a used executor must still answer like a pristine one,
+    # which is where a criterion that was bound on an earlier day shows
+    rt = core.rng(seed, 'clocksim', 'invariance', 'today')
+    cells_t = spec['sheets'][0]['cells']
+    last_t = 1 + max(wbgen.parse_a1(k_)[1] for k_ in cells_t if k_[0] in 'BCDE')
+    cells_t['G1'] = '=TODAY()'
+    forms = ['=COUNTIFS(E1:E%d,"<"&TODAY())', '=SUMIFS(C1:C%d,E1:E%d,"<="&TODAY())', '=COUNTIFS(E1:E%d,">"&G1)', '=SUMIF(E1:E%d,"<"&G1,C1:C%d)',
+             '=AVERAGEIFS(C1:C%d,E1:E%d,">="&TODAY())', '=COUNTIFS(E1:E%d,G1)']
+    rt.shuffle(forms)
+    for j_, f_ in enumerate(forms[:rt.randint(1, 3)]):
+        cells_t[a1(5, 1 + j_)] = f_ % ((last_t,) * f_.count('%d'))
     timeline = []
     tz = 'UTC0'
     # the second simulated dimension: evaluation / override history.  Between two instants a client may edit
@@ -335,6 +347,19 @@ def _gen_invariance(seed, cfg):
 
 def _has_today(f):
     return isinstance(f, str) and 'TODAY' in f
+
+
+def _reads_today(spec, k):
+    """The formula in cell k contains TODAY() or refers to a cell whose formula does (one level: the matrix has no chains)."""
+    cells = spec['sheets'][0]['cells']
+    f = cells.get(k)
+    if _has_today(f):
+        return True
+    if isinstance(f, str) and f.startswith('='):
+        for m in re.finditer(r'(?<![A-Z:$])([A-Z])(\d+)(?![:\d])', re.sub(r'"[^"]*"', '""', f)):
+            if _has_today(cells.get(m.group(1) + m.group(2))):
+                return True
+    return False
 
 
 def _exec_invariance(plan):
@@ -441,9 +466,9 @@ def _exec_invariance(plan):
                 if t['step_ns'] and nreads >= 2 and local_date(t['tz'], after) != ld:
                     probe('midnight_crossed_inside_one_evaluation')
                     feats.add('midnight-inside')
-                if nreads and not _has_today(spec['sheets'][0]['cells'][k]):
+                if nreads and not _reads_today(spec, k):
                     probe('cell_without_TODAY_reads_the_clock')
-                if rep and row[k][0] != out and not _has_today(spec['sheets'][0]['cells'][k]):
+                if rep and row[k][0] != out and (not t['step_ns'] or not _reads_today(spec, k)):
                     mism.append({'key': 'history-dependent-result', 'cell': k, 'formula': spec['sheets'][0]['cells'][k], 'instants': [ti, ti],
                                  'dates': [ld.isoformat()] * 2, 'observed': out, 'expected': row[k][0], 'why': 'repeated query at one instant'})
                 row[k] = [out, nreads]
@@ -452,8 +477,11 @@ def _exec_invariance(plan):
             # pristine executions: a new executor per cell, the current overrides applied once, same instant
             pr = {}
             for k, cc, rr in cells:
-                if _has_today(spec['sheets'][0]['cells'][k]):
-                    continue
+                if _reads_today(spec, k):
+                    # moves with the date: comparable only while the clock stands still
+                    if t['step_ns']:
+                        continue
+                    probe('today_criterion_compared_with_pristine_executor')
                 pex = Executor().set_executed_class(class_object=K)
                 if omap:
                     pex.set_cells([Cell(0, c_, r_, dec_value(v_)) for (c_, r_), v_ in sorted(omap.items())])
@@ -470,7 +498,7 @@ def _exec_invariance(plan):
     # oracle: identical outcome at all instants of one override epoch for every cell without TODAY()
     for k, cc, rr in cells:
         f = spec['sheets'][0]['cells'][k]
-        if _has_today(f):
+        if _reads_today(spec, k):
             continue
         first = {}
         for ent in log:
